@@ -298,7 +298,7 @@ class bspline(object):
         indx = np.zeros((x.size,), dtype='i4')
         ileft = self.nord - 1
         for i in range(x.size):
-            while x[i] > gb[ileft+1] and ileft < n - 1:
+            while (x[i] > gb[ileft+1] or gb[ileft+1] == gb[ileft]) and ileft < n - 1:
                 ileft += 1
             indx[i] = ileft
         return indx
